@@ -93,7 +93,7 @@ def query_pool(rng, L, full_slices, special=()):
         qs += [rrlib.random_query(rng, L) for _ in range(40)]
         qs += [("sl", a, b, c) for a in (None, 0, 2, -1) for b in (None, 0, 3, -2) for c in (None, 1, 2, -1, 0)]
         qs += [("sl", a, None, c) for a in (-3, -1, n - 1, n) for c in (None, 1, 2)] + [("sl", a, n, None) for a in (0, -2, n - 1)]   # slices ending at the end
-    # bounds around sys.maxsize: itertools.islice rejects anything above it (known finding D-C12-maxsize)
+    # bounds around sys.maxsize: itertools.islice rejects anything above it; __getitem__ clamps (fix a0cc6d1) — kept so that a revert is caught
     B = 2 ** 63
     qs += [("sl", 0, B, None), ("sl", B, None, None), ("sl", None, None, B), ("sl", 1, B - 1, None), ("sl", -1, B, None),
            ("sl", 0, 2 * B, 2), ("sl", None, B, -1), ("idx", B), ("idx", -B)]
@@ -186,13 +186,8 @@ def oracle(ctx):
                 if not got.startswith("ok"):
                     ctx.count("raised_" + got.split()[1])
                 if got != want:
-                    v = {"case": {"kind": "query", "L": L, "q": list(q), "mode": mode, "label": label}, "detail": {"impl": got, "list": want}}
-                    if _maxsize_class(v):
-                        ctx.count("known_maxsize_failures")
-                        if ctx.hist["known_maxsize_failures"] > 5:
-                            continue              # counted; do not let the known class crowd other failures out of the list
                     ctx.violation("%s on %s (cache %s): implementation %s, list semantics %s" % (q_wire(q), label, mode, got, want),
-                                  v["case"], v["detail"])
+                                  {"kind": "query", "L": L, "q": list(q), "mode": mode, "label": label}, {"impl": got, "list": want})
         # histories: random query order on ONE cached object
         for _ in range(ctx.budget(4, 10)):
             r = fac(True)
@@ -377,24 +372,7 @@ def corr_replace(ctx, rng):
     ctx.count("corr_replace_cases", len(reqs))
 
 
-def _maxsize_class(v):
-    c = v["case"]
-    if c.get("kind") != "query" or c.get("mode") == "complete":
-        return False
-    q = c["q"]
-    if q[0] != "sl":
-        return False
-    a, b, st = q[1], q[2], q[3]
-    list_path = (st is not None and st <= 0) or (a is not None and a < 0) or (b is not None and b < 0)
-    big = any(x is not None and x > sys.maxsize for x in (a, b, st))
-    return big and not list_path and (v.get("detail") or {}).get("impl") == "err ValueError"
-
-
-KNOWN = {
-    # slice with start/stop/step above sys.maxsize on the GENERATOR path (cache off or not complete), routed to itertools.islice,
-    # raising exactly ValueError; the Lean model has the same bound (query.gen correspondence)
-    "D-C12-maxsize": _maxsize_class,
-}
+KNOWN = {}
 
 
 def replay(ctx, payload):
